@@ -455,8 +455,14 @@ func (p *pdr) parseApplicationID(ie *ie.IE, appPFDs map[string]appPFD) error {
 	return nil
 }
 
+func sdfFilterFields(i *ie.IE) (fields *ie.SDFFilterFields, err error) {
+	defer recoverMalformedIE(&err)
+
+	return i.SDFFilter()
+}
+
 func (p *pdr) parseSDFFilter(ie *ie.IE) error {
-	sdfFields, err := ie.SDFFilter()
+	sdfFields, err := sdfFilterFields(ie)
 	if err != nil {
 		return err
 	}
